@@ -2,9 +2,11 @@
 package service
 
 import (
-	"github.com/jcmturner/gokrb5/v8/types"
+	"fmt"
 	"sync"
 	"time"
+
+	"github.com/jcmturner/gokrb5/v8/types"
 )
 
 // Replay cache is required as specified in RFC 4120 section 3.2.3
@@ -62,7 +64,7 @@ func (c *Cache) AddEntry(sname types.PrincipalName, a types.Authenticator) {
 // the write lock.
 func (c *Cache) addEntry(sname types.PrincipalName, a types.Authenticator) {
 	ct := a.CTime.Add(time.Duration(a.Cusec) * time.Microsecond)
-	ce, ok := c.entries[a.CName.PrincipalNameString()]
+	ce, ok := c.entries[clientKey(a)]
 	if !ok {
 		ce = clientEntries{
 			replayMap: make(map[time.Time]replayCacheEntry),
@@ -75,7 +77,13 @@ func (c *Cache) addEntry(sname types.PrincipalName, a types.Authenticator) {
 	ce.replayMap[ct] = e
 	ce.seqNumber = a.SeqNumber
 	ce.subKey = a.SubKey
-	c.entries[a.CName.PrincipalNameString()] = ce
+	c.entries[clientKey(a)] = ce
+}
+
+// clientKey is the cache key of the client that sent the authenticator: its realm and every name
+// component, each quoted so that different principals never share a key.
+func clientKey(a types.Authenticator) string {
+	return fmt.Sprintf("%q@%q", a.CName.NameString, a.CRealm)
 }
 
 // ClearOldEntries clears entries from the Cache that are older than the duration provided.
@@ -103,7 +111,7 @@ func (c *Cache) IsReplay(sname types.PrincipalName, a types.Authenticator) bool 
 	ct := a.CTime.Add(time.Duration(a.Cusec) * time.Microsecond)
 	c.mux.Lock()
 	defer c.mux.Unlock()
-	if ce, ok := c.entries[a.CName.PrincipalNameString()]; ok {
+	if ce, ok := c.entries[clientKey(a)]; ok {
 		if e, ok := ce.replayMap[ct]; ok {
 			for _, s := range e.sNames {
 				if s.Equal(sname) {
